@@ -3,7 +3,7 @@
 
   Request (one line, fields in this order):
     retry mr=<int> init=<ns> max=<ns> mul=<p>/<q> rf=<a>/<b> el=<ns> hook=<0|1> log=<0|1>
-          outs=<o0>,<o1>,…      one outcome per possible handler call: f<k> = fails (c<k>/d<k>: with an error wrapping context.Canceled /
+          outs=<o0>,<o1>,…      one outcome per possible handler call: f<k> = fails (u<k>: with an error value of an uncomparable type; c<k>/d<k>: with an error wrapping context.Canceled /
                                  DeadlineExceeded, the message context being alive), s<k> = succeeds, with k output messages
                                  (call i returns the messages i.0 … i.(k-1) and, when it fails, the error e<i>)
           cancel=<j|->           the message context ends during call j
@@ -60,6 +60,9 @@ def frac (s : String) : Option (Nat × Nat) :=
 def outcomeOf (i : Nat) (s : String) : Option Outcome :=
   match s.toList with
   | 'f' :: r => do
+    let k ← (String.ofList r).toNat?
+    pure ⟨(List.range k).map (fun j => i * 100 + j), some i⟩
+  | 'u' :: r => do      -- fails with an error value of an uncomparable dynamic type: a failure like any other
     let k ← (String.ofList r).toNat?
     pure ⟨(List.range k).map (fun j => i * 100 + j), some i⟩
   | 'c' :: r => do      -- fails with an error wrapping context.Canceled: a failure like any other
